@@ -3,7 +3,7 @@ import vlib
 
 def classify(line):
     tags = line.get("tags", [])
-    if "kind:staged" in tags:
+    if "kind:staged" in tags and "has:absent-policy" in tags:
         return "staged-policy-in-tier-stops-rendering"
     if "kind:rule-services-plus" in tags or ("kind:rule-unsupported" in tags and "unsupported:services-plus" in tags):
         return "services-rule-ignores-other-criteria"
@@ -13,8 +13,8 @@ def classify(line):
 CFG = dict(
     imports=["From Verif.Common Require Import Packet PolicyRef.", "From Verif.C30 Require Import Model Spec."],
     checker="check_any",
-    n=dict(quick=420, thorough=12000),
-    shard=60,
+    n=dict(quick=180, thorough=12000),
+    shard=28,
     rule="real policysets.PolicySets with a fake HNS API and a fake IP-set cache. kind:tier = 1-4 policies/profiles "
          "(0-4 supported rules per direction: allow/deny/pass/log, protocol by name or number, 0-2 CIDRs per side "
          "(some with host bits, bare IPs, IPv6), port lists, at most one IP-set id per side, egress services rules) added with "
@@ -22,7 +22,7 @@ CFG = dict(
          "kind:rule = protoRuleToHnsRules through a verif shim with chunk size 1-3 and up to 5 entries per list; "
          "kind:unsupported / rule-unsupported = rules with negations, ICMP, named ports, two set ids, services+other criteria "
          "(model==implementation only, oracle only inside the domain); kind:staged = tiers naming a policy the policy "
-         "manager never added; kind:big = an IP set with >4000 members (real chunking at 4000). 8-10 connections per case "
+         "manager never added (staged policies, exactly as endpoint_mgr.go passes them; oracle applied: known finding); kind:big = an IP set with >4000 members (real chunking at 4000). 8-10 connections per case "
          "aimed at CIDR/port boundaries and set members. non-trivial = >=2 policy rules rendered and a connection decided "
          "by a non-default rule; distinct by full case",
     classify=classify,
@@ -35,7 +35,8 @@ CFG = dict(
     assumptions=["IPv4 connections only (the Windows dataplane renders ipVersion 4)",
                  "domain guard Spec.in_domain: supported criteria only, at most one IP-set id per side (getIPSetAddresses unions "
                  "several ids where the reference semantics intersects; Felix cannot receive more), services rules carry no other "
-                 "criterion and are egress rules, every policy of the tier is known to the policy manager, < 64000 HNS rules per tier "
+                 "criterion and are egress rules, every policy of the tier is known to the policy manager (no staged policy in the tier), profile rules do not "
+                 "use Pass across profiles (one GetPolicySetRules call is compared with PolicyRef.tier_verdict), < 64000 HNS rules per tier "
                  "(uint16 priorities)",
                  "no static rules file", "IP-set members are IPv4 CIDRs/addresses; ip,port members are <ip>,<proto>:<port>"],
 )
